@@ -578,7 +578,7 @@ def fj_reopen(ctx):
                                                       'FileJournal.getRaftCommitIndex', 'FileJournal.onOneSecondTimer'], props=['C08', 'C04'],
       doc='O8.7/O8.8: __getitem__/__len__ are the list\'s; the commit index is kept in __meta and handed to the MetaStorer (tmp file + '
           'move, T-RENAME) only by onOneSecondTimer when it changed',
-      trusted=['T-RENAME: MetaStorer.storeMeta replaces the .meta file atomically (shutil.move of a completely written tmp file)'])
+      trusted=['MetaStorer.storeMeta by its contract (unit MetaStorer.storeMeta: old or complete new meta at every kill point)'])
 def fj_access(ctx):
     fj, rf, mm, img0, v, jl = mk_journal(ctx)
     i = FreshInt('i')
@@ -650,3 +650,162 @@ def memory_journal(ctx):
     ctx.assume(And(j >= 0, j < n0))
     r, I = call(o, '__getitem__', [j])
     ctx.prove(Eq(r, base.get(j)), 'C08+C01:MemoryJournal.getitem')
+
+
+# ------------------------------------------------------------------------------------------------ MetaStorer: the .meta file is kill-safe
+class Dumped(object):
+    """pickle.dumps(x): an opaque byte string determined by x (T-PICKLE)"""
+
+    def __init__(self, payload):
+        self.kind, self.payload = 'dumps', payload
+
+    def __repr__(self):
+        return 'dumps(%r)' % (self.payload,)
+
+
+class FsModel(object):
+    """file system restricted to the names the MetaStorer touches: name -> None (absent) or a tuple of written pieces; a snapshot is
+    recorded after every primitive operation - the states a kill can leave behind (T-FS: open('wb') creates/truncates, write appends,
+    rename replaces the target atomically, remove deletes)"""
+
+    def __init__(self, ctx, files):
+        self.ctx = ctx
+        self.files = dict(files)
+        self.states = [dict(self.files)]
+        self.ops = []
+
+    def op(self, name, *a):
+        self.ops.append((name,) + a)
+        self.states.append(dict(self.files))
+
+
+class FsFile(object):
+    def __init__(self, fs, name, mode):
+        self.fs, self.name, self.mode = fs, name, mode
+
+    def call_method(self, I, ref, name, args, kw):
+        fs = self.fs
+        if name == 'write':
+            if I.ctx.decide(FreshBool('writeFails'), 'meta-write-raises'):
+                I.raise_('OSError')
+            if 'w' not in self.mode and 'a' not in self.mode:
+                raise Undecided('write on a file opened %r' % self.mode)
+            fs.files[self.name] = (fs.files.get(self.name) or ()) + (args[0],)
+            fs.op('write', self.name)
+            return None
+        if name == 'read':
+            c = fs.files.get(self.name)
+            if len(c or ()) != 1:
+                raise Undecided('read of a file that is not one complete piece')
+            return c[0]
+        if name in ('flush', 'close', '__enter__', '__exit__'):
+            fs.op(name, self.name)
+            return ref if name == '__enter__' else None
+        return NotImplemented
+
+
+def fs_externals(ctx, fs):
+    def _open(I, a, k):
+        name, mode = a[0], (a[1] if len(a) > 1 else k.get('mode', 'r'))
+        if not isinstance(name, str):
+            raise Undecided('symbolic file name')
+        if 'w' in mode:
+            if ctx.decide(FreshBool('openFails'), 'meta-open-raises'):
+                I.raise_('OSError')
+            fs.files[name] = ()
+            fs.op('open-w', name)
+        else:
+            if fs.files.get(name) is None:
+                I.raise_('FileNotFoundError')
+            fs.op('open-r', name)
+        return ctx.alloc(FsFile(fs, name, mode))
+
+    def _move(I, a, k):
+        src, dst = a[0], a[1]
+        if fs.files.get(src) is None:
+            I.raise_('FileNotFoundError')
+        if ctx.decide(FreshBool('moveFails'), 'meta-move-raises'):
+            I.raise_('OSError')
+        fs.files[dst] = fs.files[src]
+        fs.files[src] = None
+        fs.op('rename', src, dst)
+        return None
+
+    def _remove(I, a, k):
+        if fs.files.get(a[0]) is None:
+            I.raise_('FileNotFoundError')
+        fs.files[a[0]] = None
+        fs.op('remove', a[0])
+        return None
+
+    def _exists(I, a, k):
+        return fs.files.get(a[0]) is not None
+    return {'open': _open, 'shutil.move': _move, 'os.rename': _move, 'os.replace': _move, 'os.remove': _remove, 'os.unlink': _remove,
+            'os.path.exists': _exists, 'os.path.isfile': _exists,
+            'dumps': lambda I, a, k: Dumped(a[0]), 'pickle.dumps': lambda I, a, k: Dumped(a[0]),
+            'loads': lambda I, a, k: (a[0].payload if isinstance(a[0], Dumped) else I.raise_('UnpicklingError')),
+            'pickle.loads': lambda I, a, k: (a[0].payload if isinstance(a[0], Dumped) else I.raise_('UnpicklingError'))}
+
+
+META = 'journal.bin.meta'
+
+
+@unit(name='MetaStorer.storeMeta', relpath=JMOD, qual=['MetaStorer.storeMeta', 'MetaStorer.getMeta'], props=['C08', 'C04'],
+      cases=[dict(existed=False), dict(existed=True)],
+      doc='O8.9: after every primitive file operation of storeMeta (the states a kill can leave behind, write/open/move failures included) the '
+          '.meta file is either exactly what it was before the call or the complete new meta - it is never absent, empty or partial if it '
+          'existed before - so the commit index read back after a kill is one that was actually set; after a completed call getMeta() '
+          'returns the stored meta; getMeta of an absent or unreadable file is the empty meta',
+      trusted=['T-FS: open("wb") creates/truncates, write appends, rename replaces its target atomically, remove deletes; pickle '
+               'loads(dumps(x)) == x (T-PICKLE)'],
+      canaries=[('write-in-place', lambda mod: mutate_function(mod, 'MetaStorer.storeMeta', _mut_meta_in_place), ['O8.9.meta-file-old-or-new-at-every-kill-point'])])
+def meta_store(ctx, existed):
+    mod = source.load(JMOD)
+    old = (Dumped('OLD-META'),) if existed else None
+    fs = FsModel(ctx, {META: old, META + '.tmp': None})
+    # a stale tmp file of an earlier killed save may be lying around
+    if ctx.decide(FreshBool('staleTmp'), 'stale-tmp-file'):
+        fs.files[META + '.tmp'] = ('garbage',)
+        fs.states = [dict(fs.files)]
+    ms = ctx.alloc(PObj('MetaStorer', {'_MetaStorer__path': META}))
+    new = ctx.alloc(PDict({'raftCommitIndex': FreshInt('commit')}))
+    I = Interp(ctx, externals=fs_externals(ctx, fs))
+    fn, ci = mod.find('MetaStorer.storeMeta')
+    try:
+        I.call_funcdef(fn, mod, 'MetaStorer', ms, [new], {}, None, 'MetaStorer.storeMeta')
+        outcome = 'ok'
+    except PyExc as e:
+        outcome = e.typ
+    want_new = (Dumped(new),)
+
+    def same(c, d):
+        if c is None or d is None:
+            return c is None and d is None
+        return len(c) == len(d) and all(isinstance(x, Dumped) and isinstance(y, Dumped) and x.payload is y.payload for x, y in zip(c, d))
+    for k, st in enumerate(fs.states):
+        ctx.prove(same(st[META], old) or same(st[META], want_new), 'C08+C04:O8.9.meta-file-old-or-new-at-every-kill-point',
+                  info='after %r the meta file holds %r' % (fs.ops[:k][-1:] or 'start', st[META]))
+    if outcome == 'ok':
+        ctx.prove(same(fs.files[META], want_new), 'C08+C04:O8.9.completed-store-leaves-the-new-meta')
+        fn2, _ = mod.find('MetaStorer.getMeta')
+        I2 = Interp(ctx, externals=fs_externals(ctx, FsModel(ctx, fs.files)))
+        r = I2.call_funcdef(fn2, mod, 'MetaStorer', ms, [], {}, None, 'MetaStorer.getMeta')
+        ctx.prove(r is new, 'C08+C04:O8.9.getMeta-returns-what-was-stored', info=repr(r))
+    else:
+        ctx.prove(outcome in ('OSError',), 'C08:O8.9.only-io-errors-escape', info=outcome)
+    # getMeta on an absent file
+    if not existed:
+        fn2, _ = mod.find('MetaStorer.getMeta')
+        I3 = Interp(ctx, externals=fs_externals(ctx, FsModel(ctx, {META: None})))
+        r = I3.call_funcdef(fn2, mod, 'MetaStorer', ms, [], {}, None, 'MetaStorer.getMeta')
+        rc = ctx.cell(r) if isinstance(r, Ref) else r
+        ctx.prove(isinstance(rc, (PDict, KVDict)) and len(getattr(rc, 'items', None) or getattr(rc, 'entries', None) or []) == 0, 'C08:O8.9.absent-meta-file-is-empty-meta', info=repr(rc))
+
+
+def _mut_meta_in_place(fn):
+    cnt = 0
+    for n in ast.walk(fn):
+        if isinstance(n, ast.Call) and isinstance(n.func, ast.Name) and n.func.id == 'open' and isinstance(n.args[0], ast.BinOp):
+            n.args[0] = n.args[0].left
+            cnt += 1
+    return cnt
